@@ -87,6 +87,7 @@ def private(case, model, distributed_wrap):
     else:
         kw.update(max_grad_norm=case['C'], grad_sample_mode=case['mode'])
     r = eng.make_private(**kw)
+    r[1]._verif_engine = eng          # the harness reads the accountant's history afterwards
     if case['clipping'] == 'ghost':
         m, o, crit, _ = r
     else:
@@ -140,6 +141,8 @@ def worker(rank, W, cases, store, outdir):
             del NOISE_LOG[:]
             final = train(case, m, o, crit, [st[rank] for st in steps])
             r['noise'] = list(NOISE_LOG)
+            r['hist'] = [[float(a), float(b), int(n)] for a, b, n in o._verif_engine.accountant.history]
+            r['nsteps'] = len(steps)
             if case['model'] == 'probe':
                 r['S'] = [st[rank][0].sum(0).tolist() for st in steps]
             r['start'] = start.tolist()
